@@ -819,8 +819,16 @@ def _select(cases, n, seed):
     first = [c for c in cases if len(c["edits"]) <= 1]
     rest = [c for c in cases if len(c["edits"]) > 1]
     groups = {}
-    for c in rest:      # AddUnit is told apart by the unit class it adds to (a partner class, the library's own class)
-        groups.setdefault(tuple(e[0] + (":" + e[1] if e[0] == "AddUnit" else "") for e in c["edits"][-2:]), []).append(c)
+    for c in rest:      # AddUnit is told apart by the unit class it adds to (a partner class, the library's own class);
+        # an edit that works ON a node added by an earlier edit (a child / value child / attribute of a new node) is a kind of its own
+        added = set()
+        key = []
+        for e in c["edits"]:
+            tgt = e[2] if e[0] in ("AddNode", "AddRooted") and len(e) > 2 else (e[1] if len(e) > 1 else "")
+            key.append(e[0] + (":" + e[1] if e[0] == "AddUnit" else "") + (":on-new" if isinstance(tgt, str) and tgt in added else ""))
+            if e[0] in ("AddNode", "AddRooted"):
+                added.add(e[1])
+        groups.setdefault(tuple(key[-2:]), []).append(c)
     for g in groups.values():
         rng.shuffle(g)
     out = list(first)
@@ -907,8 +915,8 @@ def _run_rest(ctx, pool, rb, rm):
         std_cases = [j for j in rstd.json_lines if "edits" in j]
         # every other stand-alone case calls its new node Gr\u00f6\u00dfe instead of Kappa: a legal tag name whose case-folded
         # form ("gr\u00f6sse") differs from its lower-case form - it has children and value children like any other node
-        std_cases = [json.loads(json.dumps(j).replace("Kappa", "Gr\\u00f6\\u00dfe")) if (n + ctx.seed) % 2 == 0 else j
-                     for n, j in enumerate(std_cases)]
+        std_cases = [json.loads(json.dumps(j).replace("Kappa", "Gr\\u00f6\\u00dfe").replace("Delta", "Stra\\u00dfe"))
+                     if (n + ctx.seed) % 2 == 0 else j for n, j in enumerate(std_cases)]
     finally:
         for m in made:
             os.remove(os.path.join(tlc.SPECS, m))
